@@ -171,7 +171,7 @@ def rule_handover(chk):
     # later adds never re-deliver
     inf = common.infeasible_edges(cfg, add, avoid_edges={(ft, flab)})
     r = cfg.reach([cfg.entry], avoid_edges={(ft, flab)} | inf)
-    chk.req(head not in r, "C12.handover", "Destinations.add:redelivery-only-on-first-add", chk.where(add, head.lineno),
+    chk.req(not any(n in r for n, c in sends), "C12.handover", "Destinations.add:redelivery-only-on-first-add", chk.where(add, head.lineno),
             good="without the first-add arm the captured-list variable is None/empty: the loop is unreachable",
             fail="the re-delivery loop is reachable on a later add: buffered messages can be delivered again / to destinations of a later call")
 
